@@ -640,6 +640,9 @@ def chooser_cli(rng, sc):
     return choose
 
 
+BRANCH_DEPTH = 400
+
+
 def chooser_prefix(prefix, record):
     """Systematic exploration (stateless model checking of the REAL threads): follow `prefix` (indices into the sorted list
     of enabled steps), then always take the first enabled step; `record` receives, per step, how many options there were.
@@ -658,6 +661,14 @@ def chooser_prefix(prefix, record):
         def choose(en, s):
             opts = options(en, s)
             k = len(record)
+            if k >= BRANCH_DEPTH:
+                # far beyond the depth at which alternatives are explored: no more branching points are recorded (a run that does not end
+                # under "first enabled step" would otherwise leave a hundred thousand of them); finish fairly
+                nt = [e for e in opts if e[1] != "timeout"]
+                pool = nt or opts
+                c = pool[s.steps % len(pool)]
+                last_timeout[c[0]] = (c[1] == "timeout")
+                return c
             i = prefix[k] if k < len(prefix) else 0
             if i >= len(opts):
                 i = 0
